@@ -160,6 +160,49 @@ macro_rules! stream_kinds {
                 oku($t.read_exact_volatile_from($a, &mut c, 0)).and_then(|()| if c.position() == pos { Ok(()) } else { Err(format!("cursor moved to {}", c.position())) })
             });
         }
+        // idle descriptors: connected stream sockets with nothing pending (non-blocking, and
+        // blocking with a short receive timeout), an empty non-blocking pipe, a file at EOF - a
+        // zero-count transfer returns Ok without waiting for, or consuming, anything
+        #[cfg(not(miri))]
+        {
+            use std::os::fd::AsRawFd;
+            let (mut ua, ub) = std::os::unix::net::UnixStream::pair().expect("socketpair");
+            let _ = ua.set_nonblocking(true);
+            let (mut ta, tb) = std::os::unix::net::UnixStream::pair().expect("socketpair");
+            let _ = ta.set_read_timeout(Some(std::time::Duration::from_millis(150)));
+            let _ = ta.set_write_timeout(Some(std::time::Duration::from_millis(150)));
+            let tcp = std::net::TcpListener::bind("127.0.0.1:0").ok().and_then(|l| {
+                let c = std::net::TcpStream::connect(l.local_addr().ok()?).ok()?;
+                let (s, _) = l.accept().ok()?;
+                let _ = s.set_nonblocking(true);
+                Some((s, c))
+            });
+            let mut eof_file = crate::models::world::temp_file(0);
+            cell(&$p("read_volatile_from-0/idle-unix-stream(non-blocking)"), $judged, $frame, $dirty, || okz($t.read_volatile_from($a, &mut ua, 0)));
+            cell(&$p("read_exact_volatile_from-0/idle-unix-stream(non-blocking)"), $judged, $frame, $dirty, || oku($t.read_exact_volatile_from($a, &mut ua, 0)));
+            cell(&$p("write_volatile_to-0/idle-unix-stream(non-blocking)"), $judged, $frame, $dirty, || okz($t.write_volatile_to($a, &mut ua, 0)));
+            cell(&$p("write_all_volatile_to-0/idle-unix-stream(non-blocking)"), $judged, $frame, $dirty, || oku($t.write_all_volatile_to($a, &mut ua, 0)));
+            cell(&$p("read_volatile_from-0/idle-unix-stream(timeout)"), $judged, $frame, $dirty, || okz($t.read_volatile_from($a, &mut ta, 0)));
+            cell(&$p("read_exact_volatile_from-0/idle-unix-stream(timeout)"), $judged, $frame, $dirty, || oku($t.read_exact_volatile_from($a, &mut ta, 0)));
+            if let Some((mut s, _c)) = tcp {
+                cell(&$p("read_volatile_from-0/idle-tcp-stream(non-blocking)"), $judged, $frame, $dirty, || okz($t.read_volatile_from($a, &mut s, 0)));
+                cell(&$p("read_exact_volatile_from-0/idle-tcp-stream(non-blocking)"), $judged, $frame, $dirty, || oku($t.read_exact_volatile_from($a, &mut s, 0)));
+                cell(&$p("write_all_volatile_to-0/idle-tcp-stream(non-blocking)"), $judged, $frame, $dirty, || oku($t.write_all_volatile_to($a, &mut s, 0)));
+            }
+            cell(&$p("read_exact_volatile_from-0/file-at-eof"), $judged, $frame, $dirty, || oku($t.read_exact_volatile_from($a, &mut eof_file, 0)));
+            cell(&$p("read_volatile_from-0/file-at-eof"), $judged, $frame, $dirty, || okz($t.read_volatile_from($a, &mut eof_file, 0)));
+            // nothing was consumed from or sent to the peers
+            let mut probe = [0u8; 1];
+            let _ = ub.set_nonblocking(true);
+            let _ = tb.set_nonblocking(true);
+            for (pn, peer) in [("non-blocking", &ub), ("timeout", &tb)] {
+                // SAFETY: non-blocking read from our own socket.
+                let n = unsafe { libc::recv(peer.as_raw_fd(), probe.as_mut_ptr() as *mut libc::c_void, 1, libc::MSG_DONTWAIT) };
+                if n > 0 {
+                    cell(&$p(&format!("idle-unix-stream({})/peer-received-bytes", pn)), $judged, $frame, $dirty, || Err("the peer of an idle socket received data from zero-count transfers".to_string()));
+                }
+            }
+        }
         // sinks
         cell(&$p("write_volatile_to-0/empty-mut-slice"), $judged, $frame, $dirty, || {
             let mut b: [u8; 0] = [];
